@@ -578,7 +578,10 @@ impl<K: Kmer, D: Debug> DebruijnGraph<K, D> {
         }
 
         for (target, dir, _) in node.r_edges() {
-            if target > node.node_id as usize {
+            // a self-link arriving on the right side (hairpin) is only seen from here
+            if target > node.node_id as usize
+                || (target == node.node_id as usize && matches!(dir, Dir::Right))
+            {
                 let to_dir = match dir {
                     Dir::Left => "+",
                     Dir::Right => "-",
